@@ -4,9 +4,6 @@ import (
 	"go/ast"
 	"go/parser"
 	"go/token"
-	"go/types"
-
-	"golang.org/x/tools/go/packages"
 
 	"github.com/octohelm/gengo/internal/verifsym"
 )
@@ -18,17 +15,24 @@ import (
 //	kind 0: const ( C0 = 0 ... )       one parenthesised group, docs on the specs
 //	kind 1: type ( T0 int ... )        one parenthesised group
 //	kind 2: var V0 = 0 / var V1 = 1    k ungrouped declarations on adjacent lines, docs on the GenDecls
-func vDeclSource(kind int, groupDoc bool, decls []vFieldLayout) string {
-	s := "package p\n\n"
-	line := func(i int) string {
-		switch kind {
-		case 0:
-			return "\tC" + vNum(i) + " = " + vNum(i)
-		case 1:
-			return "\tT" + vNum(i) + " int"
+func vDeclLine(kind, i int, multiline bool) string {
+	switch kind {
+	case 0:
+		return "\tC" + vNum(i) + " = " + vNum(i)
+	case 1:
+		if multiline {
+			return "\tT" + vNum(i) + " struct {\n\t\tX" + vNum(i) + " int\n\t}"
 		}
-		return "var V" + vNum(i) + " = " + vNum(i)
+		return "\tT" + vNum(i) + " int"
 	}
+	if multiline {
+		return "var V" + vNum(i) + " = []int{\n\t" + vNum(i) + ",\n}"
+	}
+	return "var V" + vNum(i) + " = " + vNum(i)
+}
+
+func vDeclSource(kind int, groupDoc, parenComment bool, decls []vFieldLayout) string {
+	s := "package p\n\n"
 	indent := "\t"
 	if kind == 2 {
 		indent = ""
@@ -37,19 +41,18 @@ func vDeclSource(kind int, groupDoc bool, decls []vFieldLayout) string {
 			s += "// G doc\n"
 		}
 		if kind == 0 {
-			s += "const (\n"
+			s += "const ("
 		} else {
-			s += "type (\n"
+			s += "type ("
 		}
+		if parenComment {
+			s += " // paren"
+		}
+		s += "\n"
 	}
 	for i, d := range decls {
-		switch d.doc {
-		case 1:
-			s += indent + "// d" + vNum(i) + "\n"
-		case 2:
-			s += indent + "// x" + vNum(i) + "\n\n"
-		}
-		s += line(i)
+		s += vDocText(indent, i, d.doc)
+		s += vDeclLine(kind, i, d.multiline && kind != 0)
 		if d.trailing {
 			s += " // t" + vNum(i)
 		}
@@ -61,90 +64,96 @@ func vDeclSource(kind int, groupDoc bool, decls []vFieldLayout) string {
 	return s
 }
 
-// vDeclAST builds the AST go/parser produces for vDeclSource (same line layout).
-func vDeclAST(fset *token.FileSet, kind int, groupDoc bool, decls []vFieldLayout) (*ast.File, []token.Pos) {
-	const width = 100
-	nlines := 10 + 4*len(decls)
-	tf := fset.AddFile("/src/p/p.go", -1, nlines*width)
-	lines := make([]int, nlines)
-	for i := range lines {
-		lines[i] = i * width
-	}
-	tf.SetLines(lines)
-	at := func(line, col int) token.Pos { return token.Pos(tf.Base() + (line-1)*width + col) }
-	group := func(line, col int, text string) *ast.CommentGroup {
-		return &ast.CommentGroup{List: []*ast.Comment{{Slash: at(line, col), Text: text}}}
-	}
-	f := &ast.File{Package: at(1, 0), Name: &ast.Ident{NamePos: at(1, 8), Name: "p"}, FileStart: token.Pos(tf.Base()), FileEnd: token.Pos(tf.Base() + nlines*width)}
-	line := 3
-	var pos []token.Pos
+// vDeclAST builds the AST go/parser produces for vDeclSource (positions taken from the source text).
+func vDeclAST(fset *token.FileSet, kind int, groupDoc, parenComment bool, decls []vFieldLayout) (*ast.File, []token.Pos) {
+	src := vNewSrc(fset, vDeclSource(kind, groupDoc, parenComment, decls))
+	f := src.file()
 	tok := []token.Token{token.CONST, token.TYPE, token.VAR}[kind]
-	col := 1
-	if kind == 2 {
-		col = 0
-	}
+	var pos []token.Pos
 	var gd *ast.GenDecl
 	if kind != 2 {
-		gd = &ast.GenDecl{Tok: tok}
-		if groupDoc {
-			gd.Doc = group(line, 0, "// G doc")
-			f.Comments = append(f.Comments, gd.Doc)
-			line++
+		kw := "const ("
+		if kind == 1 {
+			kw = "type ("
 		}
-		gd.TokPos = at(line, 0)
-		gd.Lparen = at(line, 6)
-		line++
+		gd = &ast.GenDecl{Tok: tok, TokPos: src.pos(kw, token.NoPos)}
+		gd.Lparen = gd.TokPos + token.Pos(len(kw)-1)
+		if groupDoc {
+			gd.Doc = src.group("// G doc", token.NoPos)
+			f.Comments = append(f.Comments, gd.Doc)
+		}
+		if parenComment {
+			f.Comments = append(f.Comments, src.group("// paren", token.NoPos))
+		}
+	}
+	indent := "\t"
+	if kind == 2 {
+		indent = ""
 	}
 	for i, d := range decls {
 		var doc *ast.CommentGroup
 		switch d.doc {
 		case 1:
-			doc = group(line, col, "// d"+vNum(i))
+			doc = src.group("// d"+vNum(i), token.NoPos)
 			f.Comments = append(f.Comments, doc)
-			line++
 		case 2:
-			f.Comments = append(f.Comments, group(line, col, "// x"+vNum(i)))
-			line += 2
+			f.Comments = append(f.Comments, src.group("// x"+vNum(i), token.NoPos))
+		case 3:
+			doc = src.group("/* m"+vNum(i)+"a\n"+indent+"m"+vNum(i)+"b */", token.NoPos)
+			f.Comments = append(f.Comments, doc)
 		}
-		var trailing *ast.CommentGroup
+		multiline := d.multiline && kind != 0
 		var spec ast.Spec
 		var namePos token.Pos
+		var trailing *ast.CommentGroup
 		switch kind {
 		case 0:
-			namePos = at(line, 1)
-			if d.trailing {
-				trailing = group(line, 8, "// t"+vNum(i))
-			}
+			namePos = src.pos("\tC"+vNum(i)+" = ", token.NoPos) + 1
 			spec = &ast.ValueSpec{Doc: doc, Names: []*ast.Ident{{NamePos: namePos, Name: "C" + vNum(i)}},
-				Values: []ast.Expr{&ast.BasicLit{ValuePos: at(line, 6), Kind: token.INT, Value: vNum(i)}}, Comment: trailing}
+				Values: []ast.Expr{&ast.BasicLit{ValuePos: namePos + 5, Kind: token.INT, Value: vNum(i)}}}
 		case 1:
-			namePos = at(line, 1)
-			if d.trailing {
-				trailing = group(line, 8, "// t"+vNum(i))
+			namePos = src.pos("\tT"+vNum(i)+" ", token.NoPos) + 1
+			ts := &ast.TypeSpec{Doc: doc, Name: &ast.Ident{NamePos: namePos, Name: "T" + vNum(i)}}
+			if multiline {
+				inner := &ast.Field{Names: []*ast.Ident{{NamePos: src.pos("X"+vNum(i)+" int", namePos), Name: "X" + vNum(i)}}}
+				inner.Type = &ast.Ident{NamePos: inner.Names[0].NamePos + 3, Name: "int"}
+				ts.Type = &ast.StructType{Struct: namePos + 3, Fields: &ast.FieldList{Opening: namePos + 10, List: []*ast.Field{inner}, Closing: src.pos("\t}", namePos) + 1}}
+			} else {
+				ts.Type = &ast.Ident{NamePos: namePos + 3, Name: "int"}
 			}
-			spec = &ast.TypeSpec{Doc: doc, Name: &ast.Ident{NamePos: namePos, Name: "T" + vNum(i)},
-				Type: &ast.Ident{NamePos: at(line, 4), Name: "int"}, Comment: trailing}
+			spec = ts
 		case 2:
-			namePos = at(line, 4)
-			if d.trailing {
-				trailing = group(line, 11, "// t"+vNum(i))
+			namePos = src.pos("var V"+vNum(i)+" = ", token.NoPos) + 4
+			vs := &ast.ValueSpec{Names: []*ast.Ident{{NamePos: namePos, Name: "V" + vNum(i)}}}
+			if multiline {
+				lit := &ast.CompositeLit{Type: &ast.ArrayType{Lbrack: namePos + 5, Elt: &ast.Ident{NamePos: namePos + 7, Name: "int"}}, Lbrace: namePos + 10}
+				lit.Elts = []ast.Expr{&ast.BasicLit{ValuePos: src.pos("\t"+vNum(i)+",", namePos) + 1, Kind: token.INT, Value: vNum(i)}}
+				lit.Rbrace = src.pos("\n}", namePos) + 1
+				vs.Values = []ast.Expr{lit}
+			} else {
+				vs.Values = []ast.Expr{&ast.BasicLit{ValuePos: namePos + 5, Kind: token.INT, Value: vNum(i)}}
 			}
-			spec = &ast.ValueSpec{Names: []*ast.Ident{{NamePos: namePos, Name: "V" + vNum(i)}},
-				Values: []ast.Expr{&ast.BasicLit{ValuePos: at(line, 9), Kind: token.INT, Value: vNum(i)}}, Comment: trailing}
+			spec = vs
 		}
-		if trailing != nil {
+		if d.trailing {
+			trailing = src.group("// t"+vNum(i), namePos)
 			f.Comments = append(f.Comments, trailing)
+			switch x := spec.(type) {
+			case *ast.ValueSpec:
+				x.Comment = trailing
+			case *ast.TypeSpec:
+				x.Comment = trailing
+			}
 		}
 		pos = append(pos, namePos)
 		if kind == 2 {
-			f.Decls = append(f.Decls, &ast.GenDecl{Doc: doc, TokPos: at(line, 0), Tok: tok, Specs: []ast.Spec{spec}})
+			f.Decls = append(f.Decls, &ast.GenDecl{Doc: doc, TokPos: namePos - 4, Tok: tok, Specs: []ast.Spec{spec}})
 		} else {
 			gd.Specs = append(gd.Specs, spec)
 		}
-		line++
 	}
 	if kind != 2 {
-		gd.Rparen = at(line, 0)
+		gd.Rparen = token.Pos(src.tf.Base() + len(src.text) - 2)
 		f.Decls = []ast.Decl{gd}
 	}
 	return f, pos
@@ -152,25 +161,34 @@ func vDeclAST(fset *token.FileSet, kind int, groupDoc bool, decls []vFieldLayout
 
 // Verif_C12_AttributionDecls: k constants in a group (kind 0), k types in a
 // group (kind 1) or k ungrouped variables on adjacent lines (kind 2), each
-// symbolically without doc / with an attached doc comment / with a detached
-// comment above, and with or without a trailing comment: Doc is exactly the
-// comment group directly above the declaration, Comment exactly its trailing
-// comment; the previous line's trailing comment, a detached comment or the
-// group's own doc are never reported.
+// symbolically without doc / with an attached // doc / with a detached comment
+// / with an attached two-line block comment, with or without a trailing
+// comment, single-line or spanning three lines (kinds 1, 2); the group
+// symbolically with its own doc and with a comment behind its opening
+// parenthesis. Doc is exactly the comment group directly above the
+// declaration; the previous declaration's trailing comment, a detached
+// comment, the group's doc or the comment behind the parenthesis are never
+// reported; Comment of a single-line declaration is exactly its trailing comment.
 func Verif_C12_AttributionDecls(kind, k int) {
-	groupDoc := verifsym.Bool()
+	groupDoc, parenComment := false, false
+	if kind != 2 {
+		groupDoc, parenComment = verifsym.Bool(), verifsym.Bool()
+	}
 	decls := make([]vFieldLayout, k)
 	for i := range decls {
-		decls[i] = vFieldLayout{doc: verifsym.IntRange(0, 2), trailing: verifsym.Bool()}
+		decls[i] = vFieldLayout{doc: verifsym.IntRange(0, 3), trailing: verifsym.Bool()}
+		if kind != 0 {
+			decls[i].multiline = verifsym.Bool()
+		}
 	}
 	fset := token.NewFileSet()
 	var file *ast.File
 	var pos []token.Pos
 	if verifsym.Symbolic() {
-		file, pos = vDeclAST(fset, kind, groupDoc, decls)
+		file, pos = vDeclAST(fset, kind, groupDoc, parenComment, decls)
 	} else {
 		var err error
-		file, err = parser.ParseFile(fset, "/src/p/p.go", vDeclSource(kind, groupDoc, decls), parser.ParseComments)
+		file, err = parser.ParseFile(fset, "/src/p/p.go", vDeclSource(kind, groupDoc, parenComment, decls), parser.ParseComments)
 		if err != nil {
 			panic(err)
 		}
@@ -185,22 +203,22 @@ func Verif_C12_AttributionDecls(kind, k int) {
 			}
 		}
 	}
-	tpkg := types.NewPackage("example.com/m/p", "p")
-	pp := &packages.Package{PkgPath: tpkg.Path(), Name: "p", Types: tpkg, Fset: fset, Syntax: []*ast.File{file},
-		TypesInfo: &types.Info{Defs: map[*ast.Ident]types.Object{}, Types: map[ast.Expr]types.TypeAndValue{}}}
-	p := newPkg(pp, VerifNewUniverse(fset, map[string]Package{}, map[string]bool{}, nil, ""))
+	p := vNewPkgFor(fset, file)
 	for i, d := range decls {
 		_, doc := p.Doc(pos[i])
 		cm := p.Comment(pos[i])
-		if d.doc == 1 {
-			verifsym.Assert(len(doc) == 1 && doc[0] == "d"+vNum(i), "Doc is not exactly the comment group directly above the declaration")
+		want := vWantDoc(i, d.doc)
+		if want != nil {
+			verifsym.Assert(vSameLines(doc, want), "Doc is not exactly the comment group directly above the declaration")
 		} else {
-			verifsym.Assert(len(doc) == 0, "a declaration without doc comment gets documentation (previous line's trailing comment, a detached comment or the group's doc)")
+			verifsym.Assert(len(doc) == 0, "a declaration without doc comment gets documentation (previous declaration's trailing comment, a detached comment, the group's doc or the comment behind the parenthesis)")
 		}
-		if d.trailing {
-			verifsym.Assert(len(cm) == 1 && cm[0] == "t"+vNum(i), "Comment is not exactly the trailing comment on the declaration's line")
-		} else {
-			verifsym.Assert(len(cm) == 0, "a declaration without trailing comment gets one")
+		if !d.multiline {
+			if d.trailing {
+				verifsym.Assert(len(cm) == 1 && cm[0] == "t"+vNum(i), "Comment is not exactly the trailing comment on the declaration's line")
+			} else {
+				verifsym.Assert(len(cm) == 0, "a declaration without trailing comment gets one")
+			}
 		}
 		verifsym.Observe("doc", doc)
 		verifsym.Observe("comment", cm)
